@@ -342,7 +342,8 @@ class Machine:
             elif typ is not None:
                 typ = "".join(t)
             b = [float(lo), float(hi)] + ([typ] if typ else [])
-            return {"op": "bounds", "check": check, "param": p, "bounds": b}
+            return {"op": "bounds", "check": check, "param": p, "bounds": b,
+                    "via": rng.choice(["set_arg_bounds", "set_arg_bounds", "property"])}
         if kind == "alias_probe":
             return {"op": "alias_probe", "what": rng.choice(["anis", "angles", "len_scale"]),
                     "how": rng.choice(["give_then_mutate", "take_then_build"]),
@@ -858,7 +859,12 @@ class Machine:
         if not self._ref_in_bounds(trial):
             raise Inapplicable("a derived value would leave its bounds")
         try:
-            self.m.set_arg_bounds(check_args=check, **{p: b})
+            if op.get("via") == "property" and not check and p in (
+                    "var", "len_scale", "nugget", "anis"):
+                setattr(self.m, p + "_bounds", b)  # the documented bounds properties
+                self.ctx.probe("bounds.via_property")
+            else:
+                self.m.set_arg_bounds(check_args=check, **{p: b})
         except ValueError as e:
             raise Violation("C14.set_arg_bounds_raised", param=p, bounds=b, error=str(e)[:120])
         if check and not inside:
